@@ -27,7 +27,7 @@ type Setting struct {
 type GzHeader struct {
 	Name    string `json:"name"` // hex of Latin-1 bytes as Go string runes
 	Comment string `json:"comment"`
-	Extra   string `json:"extra"` // hex, "" = nil
+	Extra   string `json:"extra"` // hex, "" = nil, "-" = non-nil empty
 	ModTime int64  `json:"mtime"`
 	OS      byte   `json:"os"`
 }
@@ -170,7 +170,9 @@ func (h *GzHeader) apply(name, comment *string, extra *[]byte, mt *time.Time, os
 	}
 	*name = string(latin1ToRunes(unhex(h.Name)))
 	*comment = string(latin1ToRunes(unhex(h.Comment)))
-	if h.Extra != "" {
+	if h.Extra == "-" {
+		*extra = []byte{} // non-nil and empty: FEXTRA with XLEN = 0
+	} else if h.Extra != "" {
 		*extra = unhex(h.Extra)
 	}
 	if h.ModTime != 0 {
